@@ -3,9 +3,10 @@ C08 — line-protocol driver.
   new   k:v k:v ...          configuration + initial data base; answers with the observation after Irc()
   msg   <command> <args> <nick>   Irc.feedMsg, queues drained
   reset                      Irc.reset() called directly (stub driver runs)
+  cfg   k:v k:v ...          the configuration changes while the bot runs (same keys as `new`)
   dstart                     SocketDriver(irc)                       (real driver runs)
   run <now> <due> <msg> ...  one SocketDriver.run(); each message is hexcmd;hexargs;hexnick
-Observation (TAB separated): outs fsm ls req ack nak next cur auth dec nick after exc
+Observation (TAB separated): outs fsm ls req ack nak next cur auth+sent+scramstep dec nick after exc wanted policies lastdisc
 -/
 import LimnoriaModel.C08.Progress
 import LimnoriaModel.Driver.Core
@@ -50,11 +51,15 @@ def parseCfg (fs : List String) : Option Cfg := do
   let saslPass ← fStr fs "saslpass"
   let ecdsaKey ← fStr fs "ecdsakey"
   let servers ← (field fs "servers").bind decServers
+  let scramHashes ← fList fs "scramhashes"
+  let scramFirst ← fStr fs "scramfirst"
+  let scramFinal ← (field fs "scramfinal").bind decOpt
   pure { nick, ident, user, password, alternates, mechanisms, saslUser, saslPass, ecdsaKey,
          ecdsaKeyOk := fBool fs "ecdsaok", certfile := fBool fs "certfile", required := fBool fs "required",
          joins := fBool fs "joins", hasCrypto := fBool fs "crypto", realDriver := fBool fs "real",
          ssl := fBool fs "ssl", certValidation := fBool fs "certvalidation", verifyCerts := fBool fs "verifycerts",
-         servers }
+         servers, hasScram := fBool fs "scram", scramHashes, scramFirst := utf8 scramFirst,
+         scramFinal := scramFinal.map utf8, scramFinish := fNat fs "scramfinish" }
 
 def parseDb (fs : List String) : Option Db := do
   let pol ← (field fs "policies").bind decPairs
@@ -115,7 +120,8 @@ def encDb (db : Db) : String :=
 
 def observe (s : St) (outs : List Out) (exc : Option String) : String :=
   "\t".intercalate [encOuts outs, s.fsm.name, encLs s.ls, encSet s.req, encSet s.ack, encSet s.nak,
-    encList s.saslNext, encOpt s.saslCur, (if s.saslAuth then "1" else "0"), encDec s.dec, enc s.nick,
+    encList s.saslNext, encOpt s.saslCur,
+    (if s.saslAuth then "1" else "0") ++ (if s.saslSent then "1" else "0") ++ toString s.scramStep, encDec s.dec, enc s.nick,
     (if s.afterConnect then "1" else "0"), exc.getD "-", encSet s.wanted, encDb s.db]
 
 structure DState where
@@ -154,8 +160,7 @@ def stepD (d : DState) : List String → DState × String
   | "new" :: fs =>
     match parseCfg fs, parseDb fs, (field fs "stub").bind decServer with
     | some cfg, some db, some stub =>
-      let base : St := { wanted := if fBool fs "leak" then Gen.Conn.requestCapabilities ++ [sSasl] else Gen.Conn.requestCapabilities,
-                         db := db, now := fNat fs "now", drv := { current := stub } }
+      let base : St := { db := db, now := fNat fs "now", drv := { current := stub } }
       let r := start cfg base
       -- with the real driver nobody has taken the connect messages yet: they stay queued
       ({ cfg := some cfg, st := if cfg.realDriver then { initSt cfg base with ev := [] } else r.st,
@@ -170,6 +175,11 @@ def stepD (d : DState) : List String → DState × String
         | none => if d.view.aborted then d else { d with rejected := d.rejected + 1 }
       ({ d' with st := r.st }, obsR r)
     | _, _, _, _ => (d, "bad-op")
+  | "cfg" :: fs =>
+    -- the operator changes the configuration; the Irc object only looks at it at the next reset
+    match parseCfg fs with
+    | some cfg => ({ d with cfg := some cfg }, observe d.st [] none)
+    | none => (d, "bad-op")
   | ["reset"] =>
     match d.cfg with
     | some cfg =>
